@@ -7,6 +7,7 @@
 package c14
 
 import (
+	"bytes"
 	"encoding/hex"
 	"encoding/json"
 	"errors"
@@ -50,6 +51,8 @@ type Expect struct {
 	// NoData: the answer is an HTTP failure; nothing may be returned next to
 	// the error.
 	NoData bool `json:"no_data,omitempty"`
+	// MultiHref: the document holds a status-type response with several hrefs.
+	MultiHref bool `json:"multi_href,omitempty"`
 	// StrOneOf: a successful single-value result must be one of these.
 	StrOneOf []string `json:"str_one_of,omitempty"`
 }
@@ -68,6 +71,8 @@ type Case struct {
 	AnswerAfter int64 `json:"answer_after,omitempty"`
 	// Endless: the answer's body never ends (see fakeHTTP.endless).
 	Endless bool `json:"endless,omitempty"`
+	// ReadEnd: how the body ends (see fakeHTTP.readEnd).
+	ReadEnd string `json:"read_end,omitempty"`
 	// Via "basic-auth": the client is built on webdav.HTTPClientWithBasicAuth
 	// around the fake instead of on the fake itself.
 	Via string `json:"via,omitempty"`
@@ -147,7 +152,7 @@ type outcome struct {
 }
 
 func execCase(m *minfo, cs *Case) *outcome {
-	f := &fakeHTTP{status: cs.Status, header: cs.Header, body: cs.bytes(), chunk: cs.Chunk, early: cs.Early, answerAfter: cs.AnswerAfter, endless: cs.Endless}
+	f := &fakeHTTP{status: cs.Status, header: cs.Header, body: cs.bytes(), chunk: cs.Chunk, early: cs.Early, answerAfter: cs.AnswerAfter, endless: cs.Endless, readEnd: cs.ReadEnd}
 	var hc webdav.HTTPClient = f
 	if cs.Via == "basic-auth" {
 		hc = webdav.HTTPClientWithBasicAuth(f, "user", "secret")
@@ -256,6 +261,45 @@ func errShape(err error) string {
 	return "other error"
 }
 
+// nilLink walks the chain of err as errors.As does and names the type of the
+// first link that is a nil pointer ("" = none).
+func nilLink(err error) string {
+	for err != nil {
+		if rv := reflect.ValueOf(err); rv.Kind() == reflect.Ptr && rv.IsNil() {
+			return fmt.Sprintf("%T", err)
+		}
+		switch u := err.(type) {
+		case interface{ Unwrap() error }:
+			err = u.Unwrap()
+		case interface{ Unwrap() []error }:
+			for _, e := range u.Unwrap() {
+				if t := nilLink(e); t != "" {
+					return t
+				}
+			}
+			return ""
+		default:
+			return ""
+		}
+	}
+	return ""
+}
+
+// foreignCondition: a condition element held by the DAV:error of err whose
+// local name occurs nowhere in the response body ("" = none).
+func foreignCondition(err error, body []byte) string {
+	var de *internal.Error
+	if !errors.As(err, &de) || de == nil {
+		return ""
+	}
+	for i := range de.Raw {
+		if n, ok := de.Raw[i].XMLName(); ok && !bytes.Contains(body, []byte(n.Local)) {
+			return "{" + n.Space + "}" + n.Local
+		}
+	}
+	return ""
+}
+
 func judge(c *fw.Ctx, m *minfo, cs *Case, oc *outcome) {
 	report := func(class, observed, what string) {
 		c.Report(cs.Method+" | "+class+" | "+observed, what, cs.witness())
@@ -329,7 +373,25 @@ func judge(c *fw.Ctx, m *minfo, cs *Case, oc *outcome) {
 		}
 	}
 	if gotErr {
+		// The error is a value callers take apart with errors.As / Unwrap and
+		// print: every link of its chain is usable (a nil pointer stored in an
+		// error interface is found by errors.As and handed out as a nil
+		// *internal.Error / *internal.HTTPError), Error() returns, and a
+		// DAV:error it holds has its conditions from the response.
+		if t := nilLink(oc.err); t != "" {
+			c.Observe("checks", "error chain with a nil pointer link", 1)
+			report(cs.Class, "error chain holds a nil "+t, fmt.Sprintf("errors.As with a %s target succeeds on the returned error and yields a nil pointer (error text %q)", t, fw.ErrString(oc.err)))
+			return
+		}
+		if p, v, st := fw.Guard(func() { _ = oc.err.Error() }); p {
+			report(cs.Class, "panic in Error() of the returned error", fmt.Sprintf("%v\n%s", v, st))
+			return
+		}
+		c.Observe("checks", "error chain walked: no nil link, Error() returns", 1)
 		c.Observe("error_shape", fmt.Sprintf("http %s|%s -> %s", httpClass(cs.Status), cs.Kind, errShape(oc.err)), 1)
+		if foreign := foreignCondition(oc.err, cs.bytes()); foreign != "" {
+			report(cs.Class, "DAV:error with a condition the response does not hold", fmt.Sprintf("the error holds the condition element %s, which the response body does not mention", foreign))
+		}
 		if cs.Exp.HTTPCode != 0 {
 			var he *internal.HTTPError
 			switch {
@@ -343,6 +405,13 @@ func judge(c *fw.Ctx, m *minfo, cs *Case, oc *outcome) {
 		}
 		if cs.Exp.Cond != "" {
 			var de *internal.Error
+			if cs.Status == 207 {
+				// one class for the condition of a failing response inside a
+				// multistatus, whatever its code (one defect, one key per method)
+				class207 := "207 + multistatus: failing response holding a DAV:error condition"
+				inner := report
+				report = func(_, observed, what string) { inner(class207, observed, what) }
+			}
 			if !errors.As(oc.err, &de) {
 				report(cs.Class, "error without DAV:error", fmt.Sprintf("error does not unwrap to *internal.Error: %v", oc.err))
 			} else {
@@ -430,12 +499,16 @@ func judge(c *fw.Ctx, m *minfo, cs *Case, oc *outcome) {
 		for _, e := range out.Entries {
 			upd[e.Path] = true
 		}
+		cls := "207 + multistatus: response with 404 status"
+		if cs.Exp.MultiHref {
+			cls = "207 + multistatus: response with 404 status and several hrefs"
+		}
 		for _, p := range cs.Exp.SyncDeleted {
 			if !del[p] {
-				report("207 + multistatus: response with 404 status", "not reported as deleted", fmt.Sprintf("%s missing from Deleted %q", p, out.Deleted))
+				report(cls, "not reported as deleted", fmt.Sprintf("%s missing from Deleted %q", p, out.Deleted))
 			}
 			if upd[p] {
-				report("207 + multistatus: response with 404 status", "reported as updated", fmt.Sprintf("%s in Updated", p))
+				report(cls, "reported as updated", fmt.Sprintf("%s in Updated", p))
 			}
 		}
 		c.Observe("checks", "sync-collection 404 responses found in Deleted", 1)
@@ -524,17 +597,18 @@ func init() {
 		Replay: replay,
 		Rule: "Every public client method of webdav/caldav/carddav (23 methods) against a scripted fake HTTP client. " +
 			"matrix (exhaustive): HTTP status 100..599 x body kind {none, text/plain, DAV:error as application/xml, DAV:error as text/xml, garbage with XML type, valid multistatus for the method, valid object} x method, " +
-			"plus Create with the answer sent before the upload is read; uploads: Create/Write*/Close scripted on both sides (answer before, after 1 byte, after half, after all of the upload x 0/100/1 MiB in 0/1/3/256 Writes x Close after the first Write error or after ignoring errors x 10 statuses, thorough +39); every call runs on its own goroutine and a call that neither returns nor can be woken (quiescence rule) is a hang finding; errbodies: the body of a 3xx/4xx/5xx answer as an axis of its own (ASCII, NULs, white space, 2/3/4-byte UTF-8 with a rune straddling every boundary, 0x80/0xBF/0xFF runs, lone lead bytes at the 1024 cut, complete and cut DAV:error documents; lengths 0,1,1023,1024,1025,4096,1 MiB; Content-Type text/plain with and without charset, text/html, application/xml, text/xml, missing, malformed) for every method: error with the status, no data, no panic; valid: randomly populated conformant multistatus documents in random lexical forms; " +
-			"placements (exhaustive): every assignment of {200,204,102,302,403,404,500,507} to response status / needed-property propstat / optional-property propstat over 2 (thorough 3) responses per list method and sync-collection, and over the single response of PROPFIND-Depth-0 methods; " +
-			"truncation (exhaustive): every prefix of one (thorough 3) valid multistatus document per multistatus method and of valid iCalendar/vCard bodies; corrupt: well-formed multistatus whose needed value / status line / embedded object cannot be interpreted; " +
+			"plus Create with the answer sent before the upload is read; uploads: Create/Write*/Close scripted on both sides (answer before, after 1 byte, after half, after all of the upload x 0/100/1 MiB in 0/1/3/256 Writes x Close after the first Write error or after ignoring errors x 10 statuses, thorough +39); every call runs on its own goroutine and a call that neither returns nor can be woken (quiescence rule) is a hang finding; errbodies: the body of a 3xx/4xx/5xx answer as an axis of its own (ASCII, NULs, white space, 2/3/4-byte UTF-8 with a rune straddling every boundary, 0x80/0xBF/0xFF runs, lone lead bytes at the 1024 cut, complete and cut DAV:error documents; lengths 0,1,1023,1024,1025,4096,1 MiB; Content-Type text/plain with and without charset, text/html, application/xml, text/xml, missing, malformed) for every method: error with the status, no data, no panic; errpages: what servers and proxies really send with a failing status - 8 markup templates (HTML pages with title / headings / doctype / meta, title only, misnested and unclosed titles, a JSON problem document) x text {ASCII, ISO-8859-1 bytes, UTF-8, runes whose case mappings change length, control characters} x tag names {lower, upper, alternating case} x Content-Type, whole (every method) and cut at every offset (two methods in turn, thorough all); every returned error is walked like errors.As does: no link of the chain is a nil pointer, Error() returns, a DAV:error in it holds no condition the response does not mention; valid: randomly populated conformant multistatus documents in random lexical forms; " +
+			"placements (exhaustive): every assignment of {200,204,102,302,403,404,500,507} to response status / needed-property propstat / optional-property propstat over 2 (thorough 3) responses per list method and sync-collection, and over the single response of PROPFIND-Depth-0 methods; a failing response that says why (DAV:error condition x responsedescription {none, after, before the error element} x status only / next to 200 propstats x 9 codes x position): the error carries that response's code and condition; status-type responses with two or three hrefs (codes x position): for sync-collection every href of a 404 response is a deletion; " +
+			"truncation (exhaustive): every prefix of one (thorough 3) valid multistatus document per multistatus method and of valid iCalendar/vCard bodies and a raw download, each prefix also ending with (n, io.EOF) in one Read and with a read error instead of an end (quick: every fourth offset); corrupt: well-formed multistatus whose needed value / status line / embedded object cannot be interpreted; " +
 			"mutations: random byte edits of valid documents and objects (no-panic only); oversized: 8 MiB bodies; headers: DAV/ETag/Location variants. " +
 			"distinct_nontrivial counts distinct (method, HTTP status class, body kind or per-response status-class pattern, outcome) keys.",
 		Assumptions: []string{
 			"the fake always drains or closes the request body, sets Response.Request and hands out a finite in-memory body: a call can only block inside the library; every call runs on its own goroutine and a hang is decided by quiescence (fake returned from Do, no goroutine but the monitor running/runnable/sleeping/in a syscall for 60 consecutive polls, caller blocked below a go-webdav frame), a 60 s wall-clock watchdog only yields inconclusive",
 			"'interpretable' bodies are conformant RFC 4918 multistatus documents holding the properties the method needs, all under 200 propstats (optional properties may be absent), or RFC 5545/6350 objects with the matching Content-Type",
-			"don't-cares (statement silent): 2xx-but-not-200 propstats; optional properties under failing propstats (error or omission, never the value); failing responses inside a list (error or omission); 207 answers to DELETE/COPY/MOVE; DTD-invalid but well-formed multistatus (missing href, two hrefs, empty current-user-principal, status without reason phrase, invalid percent escape in an href); OPTIONS answers without the addressbook class; malformed vCard lines (go-vcard skips them); result order",
+			"don't-cares (statement silent): 2xx-but-not-200 propstats; optional properties under 404 propstats (error or omission, never the value); a failing status on the collection's own entry or on a kind the method does not list (error or omission; a failing listed member or sync member other than 404 obliges an error, as does a needed property under 404); a needed property that is absent altogether; a complete document followed by a read error; DAV:error conditions of a propstat (only those of a response are asked for); 207 answers to DELETE/COPY/MOVE; DTD-invalid but well-formed multistatus (missing href, two hrefs, empty current-user-principal, status without reason phrase, invalid percent escape in an href); OPTIONS answers without the addressbook class; malformed vCard lines (go-vcard skips them); result order",
 			"1xx/3xx statuses returned by the HTTP client are plain non-2xx statuses",
 			"a body that never ends is a response a server may send: for failing answers of a non-XML media type the fake follows the scripted bytes with filler and gives up after 8 MiB with a read error; a call that consumed all of it is reported as reading without bound (it would never return), any bounded reader passes; XML error bodies are left out (a streaming decoder cannot tell 'goes on' from 'not finished')",
+			"where the only blemishes of a multistatus are responses with a failing status, an error of the call is about one of them: it unwraps to an HTTPError with their code (asked for when they all have the same) and, when each of them holds a DAV:error condition, to an Error holding it",
 			"a third of the matrix / error-body cases and half of the challenge cases build the client on webdav.HTTPClientWithBasicAuth around the fake: the wrapper must be transparent for every answer",
 			"go-webdav/internal is imported for HTTPError and Error only (errors.As), as the property anchors them",
 		},
